@@ -90,29 +90,30 @@ func (W) Gen(prop string, seed uint64, tier string) *world.Plan {
 		mocked := map[int]bool{}
 		stubbed := map[int]bool{}
 		for i, n := 0, 3+r.Intn(10); i < n; i++ {
-			t := own[r.Intn(len(own))]
+			// one builder per target: Builder.Reset walks a Go map, so a Reset that covers several
+			// mockers would order its writes differently from run to run (DESIGN.md §5)
+			bi := r.Intn(len(own))
+			t := own[bi]
 			switch r.Pick(40, 15, 10, 15, 10, 10) {
 			case 0:
-				ops = append(ops, world.Op{K: "apply", B: 0, T: t, V: r.U64(), W: r.U64()})
+				ops = append(ops, world.Op{K: "apply", B: bi, T: t, V: r.U64(), W: r.U64()})
 				mocked[t], stubbed[t] = true, false
 			case 1:
 				if hist.Targets[t].Typ.NumOut() > 0 && !stubbed[t] {
-					ops = append(ops, world.Op{K: "ret", B: 0, T: t, V: r.U64(), W: r.U64()})
+					ops = append(ops, world.Op{K: "ret", B: bi, T: t, V: r.U64(), W: r.U64()})
 					mocked[t], stubbed[t] = true, true
 				}
 			case 2:
 				if hist.Targets[t].Simple && hist.Targets[t].Typ.NumOut() > 0 {
-					ops = append(ops, world.Op{K: "when", B: 0, T: t, V: r.U64(), W: r.U64()})
+					ops = append(ops, world.Op{K: "when", B: bi, T: t, V: r.U64(), W: r.U64()})
 					mocked[t], stubbed[t] = true, true
 				}
 			case 3:
-				ops = append(ops, world.Op{K: "cancel", B: 0, T: t, W: r.U64()})
+				ops = append(ops, world.Op{K: "cancel", B: bi, T: t, W: r.U64()})
 				mocked[t], stubbed[t] = false, false
 			case 4:
-				ops = append(ops, world.Op{K: "reset", B: 0})
-				for k := range mocked {
-					mocked[k], stubbed[k] = false, false
-				}
+				ops = append(ops, world.Op{K: "reset", B: bi})
+				mocked[t], stubbed[t] = false, false
 			case 5:
 				ops = append(ops, world.Op{K: "call", T: t, F: r.Intn(3), W: r.U64()})
 			}
